@@ -314,6 +314,14 @@ func genProgram(r *rng.R, nroutes int, withInput bool) *aprog {
 			pg.ParamSets = append(pg.ParamSets, ps)
 		}
 	}
+	// a parameter struct shared by two operations (swagger:parameters id1 id2) whose field one of them also declares in its own
+	// struct, identically: the operation has that parameter once
+	if len(pg.ParamSets) >= 2 && r.Chance(2, 3) {
+		shared := aparam{GoName: "Shared", Name: "shared", In: "query", GoType: "int32", Type: "integer", Format: "int32", Lines: []string{"in: query", "maximum: 9"}, Want: map[string]interface{}{"maximum": 9}}
+		a, b := &pg.ParamSets[0], &pg.ParamSets[1]
+		a.Params = append(a.Params, shared)
+		pg.ParamSets = append(pg.ParamSets, aparamset{GoName: "SharedPaging", OpIDs: []string{a.OpIDs[0], b.OpIDs[0]}, Params: []aparam{shared}})
+	}
 	if withInput {
 		// an input document that already knows one operation per method on /legacy, and one of the routes
 		in := &spec.Swagger{SwaggerProps: spec.SwaggerProps{Swagger: "2.0", Info: &spec.Info{InfoProps: spec.InfoProps{Title: "input", Version: "0.1"}},
@@ -323,6 +331,10 @@ func genProgram(r *rng.R, nroutes int, withInput bool) *aprog {
 		for _, m := range methods17 {
 			o := *ok
 			o.ID = "legacy" + strings.Title(strings.ToLower(m))
+			if len(m)%2 == 0 {
+				// the input document already declares the parameter the code annotates (without its constraint): the annotated one replaces it
+				o.Parameters = []spec.Parameter{*spec.QueryParam("limit").Typed("integer", "int32"), *spec.QueryParam("fromInput").Typed("string", "")}
+			}
 			oo := o
 			switch m {
 			case "GET":
@@ -798,10 +810,15 @@ func faithful(pg *aprog, sw *spec.Swagger, add func(key, what string, detail int
 			for _, p := range ps.Params {
 				n++
 				var got *spec.Parameter
+				count := 0
 				for i := range op.Parameters {
 					if op.Parameters[i].Name == p.Name && op.Parameters[i].In == p.In {
 						got = &op.Parameters[i]
+						count++
 					}
+				}
+				if count > 1 {
+					add("c17/parameter-duplicated["+p.In+"]", "an operation lists the same parameter (name and location) more than once", J{"operation": id, "name": p.Name, "in": p.In, "count": count})
 				}
 				cls := p.In + ":" + p.GoType
 				if got == nil {
@@ -854,6 +871,21 @@ func faithful(pg *aprog, sw *spec.Swagger, add func(key, what string, detail int
 		}
 		if _, ok := sw.Definitions["Legacy"]; !ok {
 			add("c17/input-definition-lost", "a definition of the input document is gone", nil)
+		}
+		// a parameter the input document declares for an operation and the code does not mention stays
+		for _, m := range methods17 {
+			if len(m)%2 != 0 {
+				continue
+			}
+			if op := byID["legacy"+strings.Title(strings.ToLower(m))]; op != nil {
+				found := false
+				for _, q := range op.Parameters {
+					found = found || (q.Name == "fromInput" && q.In == "query")
+				}
+				if !found {
+					add("c17/input-parameter-lost", "a parameter that only the input document declares for an operation is gone", J{"operation": op.ID})
+				}
+			}
 		}
 	}
 	return n
